@@ -1197,7 +1197,7 @@ def explore_c17(tier, seed):
         # a run long enough to be checked (every 182 temporal units), then another one whose status differs
         if i == 0:
             try:
-                small = scen.gen_scenario(s + 5, "eventfree", T=190, m=1, n=2, k=1)
+                small = scen.gen_scenario(s + 5, "eventfree", T=190, m=1, n=2, k=1, labels="plain")
                 small["model"]["dt"] = 1
                 sim_a = scen.build_sim(copy.deepcopy(small))
                 quiet_loop(sim_a)
@@ -1307,7 +1307,8 @@ def explore_c17(tier, seed):
                 viol(res, "C17", "the caller's rebuilding-sectors dict was modified", case=scen.summarize(sc))
         # one Event object used in two simulations (second one on another table with the same labels)
         if ev_objs:
-            tb2 = scen.gen_table(random.Random(s + 99), m=sc["table"]["m"], n=sc["table"]["n"], k=sc["table"]["k"], kind="dense", scale=sc["table"]["scale"])
+            tb2 = scen.gen_table(random.Random(s + 99), m=sc["table"]["m"], n=sc["table"]["n"], k=sc["table"]["k"], kind="dense", scale=sc["table"]["scale"],
+                                 labels=sc["table"].get("labels", "plain"))
             sc_b = copy.deepcopy(sc)
             sc_b["table"] = tb2
             if not known.match_scenario("C17", sc_b):
